@@ -18,8 +18,10 @@
 (* by the parity of the relocation's offset in its input section and the   *)
 (* parity of the output address (RELR); the symbol-level space is the      *)
 (* product of the ValueFlags bits the two functions look at.               *)
-(* Named deviations (defects of the pinned tree, reproduced by the replay): *)
-(*   relr-parity           RELR chosen by offset parity vs by place parity *)
+(* Named deviations (defects of the tree, reproduced by the replay):        *)
+(*   (relr-parity          RELR chosen by offset parity vs by place parity *)
+(*                         - FIXED in the tree; survives only as the       *)
+(*                         RelrRule = "old" variant, which TLC must reject)*)
 (*   pcrel-interposable-w  non-absolute DIRECT reference to an interposable*)
 (*                         symbol from a writable section reserves a       *)
 (*                         dynamic relocation that only absolute           *)
@@ -37,37 +39,55 @@ One(p) == [Zero EXCEPT ![p] = 1]
 N(p, n) == [Zero EXCEPT ![p] = n]
 
 (* ------------------------------------------------------------------ site level *)
-(* offpar / addrpar: 0 even, 1 odd.  sibling: the group of files the writer processes together has
-   another RELR reservation, so the writer owns a non-empty RELR table (TableWriter::new filters an
-   empty part out) *)
-SiteAlloc(c, offpar) ==
-    LET pr == WProcess(c) IN
-    IF pr.err # "" THEN Zero
-    ELSE IF pr.part = "rela-general" THEN One("rela_general")
-    ELSE IF pr.part = "relative" THEN (IF c.relr /\ offpar = 0 THEN One("relr") ELSE One("rela_relative"))
-    ELSE Zero
+CONSTANT RelrRule   \* "code": the rule of the tree (elf::relr_eligible, used by layout AND writer):
+                    \*         RELR iff enabled, the offset in the input section is even and the section
+                    \*         is at least 2-aligned (which implies an even address);
+                    \* "old":  the defect fixed by `fix: decide RELR eligibility the same way at layout and
+                    \*         at write time`: layout by offset parity, writer by address parity.  Kept only
+                    \*         as a deliberately broken variant that TLC must reject.
 
-SiteConsume(c, offpar, addrpar, sibling) ==
-    LET w == WWrite(c)
-        relrTable == c.relr /\ (sibling \/ SiteAlloc(c, offpar)["relr"] > 0)
-    IN IF WProcess(c).err # "" THEN Zero
-       ELSE IF w = "rela-general" THEN One("rela_general")
-       ELSE IF w = "relative" THEN (IF relrTable /\ addrpar = 0 THEN One("relr") ELSE One("rela_relative"))
+(* offpar / addrpar: 0 even, 1 odd.  aligned: the input section's alignment is >= 2.  sibling (old
+   rule only): the group of files the writer processes together has another RELR reservation, so
+   the writer owns a non-empty RELR table (TableWriter::new filters an empty part out) *)
+RelrEligible(offpar, aligned) == offpar = 0 /\ aligned
+
+SiteAlloc(c, offpar, aligned) ==
+    LET pr == WProcess(c)
+        relr == c.relr /\ (IF RelrRule = "code" THEN RelrEligible(offpar, aligned) ELSE offpar = 0)
+    IN IF pr.err # "" THEN Zero
+       ELSE IF pr.part = "rela-general" THEN One("rela_general")
+       ELSE IF pr.part = "relative" THEN (IF relr THEN One("relr") ELSE One("rela_relative"))
        ELSE Zero
 
-SiteAgree(c, offpar, addrpar, sibling) == SiteAlloc(c, offpar) = SiteConsume(c, offpar, addrpar, sibling)
+SiteConsume(c, offpar, addrpar, aligned, sibling) ==
+    LET w == WWrite(c)
+        relr == IF RelrRule = "code" THEN c.relr /\ RelrEligible(offpar, aligned)
+                ELSE c.relr /\ (sibling \/ SiteAlloc(c, offpar, aligned)["relr"] > 0) /\ addrpar = 0
+    IN IF WProcess(c).err # "" THEN Zero
+       ELSE IF w = "rela-general" THEN One("rela_general")
+       ELSE IF w = "relative" THEN (IF relr THEN One("relr") ELSE One("rela_relative"))
+       ELSE Zero
 
-SiteDev(c, offpar, addrpar, sibling) ==
-    IF SiteAgree(c, offpar, addrpar, sibling) THEN ""
+(* a RELR entry can only describe an even address: the rule must never select an odd place *)
+RelrPlaceEven(c, offpar, addrpar, aligned, sibling) ==
+    SiteConsume(c, offpar, addrpar, aligned, sibling)["relr"] > 0 => addrpar = 0
+
+SiteAgree(c, offpar, addrpar, aligned, sibling) ==
+    SiteAlloc(c, offpar, aligned) = SiteConsume(c, offpar, addrpar, aligned, sibling)
+
+SiteDev(c, offpar, addrpar, aligned, sibling) ==
+    IF SiteAgree(c, offpar, addrpar, aligned, sibling) THEN ""
     ELSE IF WProcess(c).part = "relative" /\ WWrite(c) = "relative" THEN "relr-parity"
     ELSE IF WProcess(c).part = "rela-general" /\ WWrite(c) = "" THEN "pcrel-interposable-w"
     ELSE IF WProcess(c).part = "" /\ WWrite(c) = "relative" THEN "abs-readonly-nonaddr"
     ELSE "UNNAMED"
+(* deviations still present in the tree; "relr-parity" is no longer one of them *)
+OpenDevs == {"pcrel-interposable-w", "abs-readonly-nonaddr"}
 
 (* which direction the writer reports *)
-SiteFailure(c, offpar, addrpar, sibling) ==
-    LET a == SiteAlloc(c, offpar)
-        w == SiteConsume(c, offpar, addrpar, sibling)
+SiteFailure(c, offpar, addrpar, aligned, sibling) ==
+    LET a == SiteAlloc(c, offpar, aligned)
+        w == SiteConsume(c, offpar, addrpar, aligned, sibling)
     IN IF a = w THEN "none"
        ELSE IF \E p \in Parts : w[p] > a[p] THEN "insufficient" ELSE "excess"
 
